@@ -185,6 +185,65 @@ def transplant(region, real_text):
         for d in range(n):
             e2r[a + d] = b + d
     ne = len(e_toks)
+    # alpha-renaming: a local / parameter whose name changed and nothing else.  A rename is accepted for one scope - from the first
+    # renamed occurrence to the end of the block that holds the last one - only when every occurrence of the old name in that scope is
+    # replaced by the same new name (aligned one to one), the old name no longer occurs in the corresponding real text, and the new name
+    # is new to that part of the template and to its annotations; the annotations inside the scope then follow the rename.  Anything
+    # less is not a rename and is left to the ordinary alignment.
+    renamed = []  # (first, scope_end, old, new)
+    cand = {}
+    KW = {"let", "mut", "fn", "if", "else", "match", "for", "in", "while", "loop", "return", "break", "continue", "self", "Self", "as", "ref", "move", "async", "await", "pub", "crate", "super", "true", "false", "Some", "None", "Ok", "Err"}
+    IDENT = re.compile(r"^[A-Za-z_]\w*$")
+    for tag, i1, i2, j1, j2 in sm.get_opcodes():
+        if tag == "replace" and i2 - i1 == j2 - j1:
+            for d in range(i2 - i1):
+                x, y = e_toks[i1 + d], r_norm[j1 + d]
+                if x != y and IDENT.match(x) and IDENT.match(y) and x not in KW and y not in KW:
+                    cand.setdefault(x, {})[i1 + d] = (j1 + d, y)
+    if cand:
+        # matching braces of the template's executable tokens
+        close_of, stack = {}, []
+        for idx, t in enumerate(e_toks):
+            if t == "{":
+                stack.append(idx)
+            elif t == "}" and stack:
+                close_of[stack.pop()] = idx
+        def nocomment(text):
+            return re.sub(r"//.*", "", text)
+        for x, occ in cand.items():
+            pos = [i for i, t in enumerate(e_toks) if t == x]
+            runs, cur = [], []
+            for i in pos:
+                if i in occ and (not cur or occ[cur[-1]][1] == occ[i][1]):
+                    cur.append(i)
+                else:
+                    if cur:
+                        runs.append(cur)
+                    cur = [i] if i in occ else []
+            if cur:
+                runs.append(cur)
+            for run in runs:
+                first, last, y = run[0], run[-1], occ[run[0]][1]
+                opens = [o for o in close_of if o < last and close_of[o] > last]
+                scope_end = close_of[max(opens)] if opens else ne - 1
+                later = [i for i in pos if i > last and i <= scope_end]
+                if later:
+                    scope_end = later[0] - 1
+                rf, rl = occ[first][0], occ[last][0]
+                if y in e_toks[first:scope_end + 1] or x in r_norm[rf:rl + 1] or r_norm[rf:rl + 1].count(y) != len(run):
+                    continue
+                if any(first < k <= scope_end + 1 and re.search(r"\b%s\b" % re.escape(y), nocomment(text)) for (k, text, _) in anns):
+                    continue
+                renamed.append((first, scope_end, x, y))
+                for i in run:
+                    e2r[i] = occ[i][0]
+    if renamed:
+        def _ren(k, text):
+            for (first, scope_end, x, y) in renamed:
+                if first < k <= scope_end + 1:
+                    text = re.sub(r"(?<![\.\w:])%s\b" % re.escape(x), y, text)
+            return text
+        anns = [(k, _ren(k, text), kind) for (k, text, kind) in anns]
     inserts = {}  # char position in real_text -> list of (text, kind)
     moved = 0
     dropped = 0
@@ -315,7 +374,7 @@ def transplant(region, real_text):
         last = pos
     out.append(real_text[last:])
     changed = sum(1 for tag, *_ in sm.get_opcodes() if tag != "equal")
-    return "".join(out), {"template_tokens": ne, "real_tokens": len(r_norm), "diff_hunks": changed, "annotations_moved": moved, "annotations_dropped": dropped}
+    return "".join(out), {"template_tokens": ne, "real_tokens": len(r_norm), "diff_hunks": changed, "annotations_moved": moved, "annotations_dropped": dropped, "locals_renamed": ["%s -> %s" % (x, y) for (_, _, x, y) in renamed]}
 
 
 def erase(emitted):
